@@ -400,6 +400,12 @@ void Circuit::safe_insert(size_t index, const Circuit &circuit) {
     if (index > operations.size()) {
         throw std::invalid_argument("index > operations.size()");
     }
+    if (&circuit == this) {
+        // Inserting a vector's own range into itself is not allowed, and the loop below relies on the source not growing.
+        Circuit copy = circuit;
+        safe_insert(index, copy);
+        return;
+    }
 
     operations.insert(operations.begin() + index, circuit.operations.begin(), circuit.operations.end());
 
